@@ -283,6 +283,7 @@ func equalsAny(a, b any) (res bool, panicked bool) {
 
 func genC07(r *R, n int, tier string, out *Out) {
 	o := defaultOpts()
+	o.Stress = true
 	// Go strings are byte strings: Equals compares them exactly, also when they are not valid UTF-8
 	o.Str = func(r *R) string {
 		if r.chance(0.12) {
